@@ -131,8 +131,13 @@ fn twin_of(case: &MacCase, w: &World, cuts: &[Option<(Win, usize)>]) -> (MacCase
                         if order(win) > order(cw) {
                             l.clear();
                         } else if win == cw {
-                            // the oversize frame itself was removed above; later slots shifted down by one
-                            l.truncate(cslot);
+                            // keep only the frames that were delivered before the oversize frame and not removed
+                            let kept_before = e
+                                .delivered
+                                .iter()
+                                .filter(|d| d.op == idx && d.win == cw && d.slot < cslot && !matches!(d.verdict, Verdict::Reject(_) | Verdict::Oversize))
+                                .count();
+                            l.truncate(kept_before);
                         }
                     }
                 }
@@ -264,90 +269,13 @@ impl Property for C07 {
             Tier::Thorough => 12_000_000,
         }
     }
-    fn generate(&self, seed: u64, run: u64, _tier: Tier, _avoid: &BTreeSet<String>) -> MacCase {
-        let mut r = Rng::new(run_seed(seed, "C07", run));
-        let cfg = gen_cfg(&mut r, &CfgProfile { frontends: ALL_FRONTENDS, otaa_pct: 35, boundary_counters_pct: 10, join_bias_pct: 20 });
-        let mut cfg = cfg;
-        if cfg.fcnt_up0 > 0xFFFF_0000 {
-            cfg.fcnt_up0 = 7;
+    fn generate(&self, seed: u64, run: u64, tier: Tier, avoid: &BTreeSet<String>) -> MacCase {
+        // one run in five borrows another property"s generator (same case type), so that this oracle also
+        // judges histories of shapes its own generator does not produce
+        if let Some(c) = super::cross_generate("C07", &["C04", "C05", "C08", "C09", "C10", "C11", "C12"], seed, run, tier, avoid) {
+            return c;
         }
-        let nb = cfg.frontend == Frontend::Nb;
-        let mut allow_oversize = r.chance(1, 3);
-        let mut ops = Vec::new();
-        if cfg.otaa {
-            let mut t = Txn::default();
-            if r.chance(1, 2) {
-                t.rx1.push(gen_bad(&mut r, &cfg, &mut allow_oversize));
-                if nb {
-                    t.rx1.push(FrameSpec::JoinAccept(gen_ja_valid(&mut r, cfg.region)));
-                } else {
-                    t.rx2.push(FrameSpec::JoinAccept(gen_ja_valid(&mut r, cfg.region)));
-                }
-            } else {
-                t.rx1.push(FrameSpec::JoinAccept(gen_ja_valid(&mut r, cfg.region)));
-            }
-            ops.push(Op::Join(t));
-        }
-        let n = r.range(3, 10) as usize;
-        for _ in 0..n {
-            if cfg.frontend == Frontend::AsyncC && !ops.is_empty() && r.chance(1, 6) && ops.iter().any(|o| matches!(o, Op::Send { .. })) {
-                let k = r.range(1, 3);
-                let frames = (0..k).map(|_| if r.chance(2, 3) { gen_bad(&mut r, &cfg, &mut false) } else { frame_ok(&mut r) }).collect();
-                ops.push(Op::Listen { frames, fault: None });
-                continue;
-            }
-            if cfg.otaa && r.chance(1, 10) {
-                let mut t = Txn::default();
-                t.rx1.push(gen_bad(&mut r, &cfg, &mut allow_oversize));
-                if r.chance(1, 2) {
-                    t.rx2.push(FrameSpec::JoinAccept(gen_ja_valid(&mut r, cfg.region)));
-                }
-                ops.push(Op::Join(t));
-                continue;
-            }
-            let mut t = Txn::default();
-            // what happens in the windows of this uplink
-            match r.below(8) {
-                0 | 1 => {
-                    t.rx1.push(gen_setup_frame(&mut r, cfg.region));
-                }
-                2 => t.rx2.push(gen_setup_frame(&mut r, cfg.region)),
-                3 | 4 => {
-                    t.rx1.push(gen_bad(&mut r, &cfg, &mut allow_oversize));
-                    if nb && r.chance(1, 2) {
-                        t.rx1.push(gen_setup_frame(&mut r, cfg.region));
-                    }
-                }
-                5 => {
-                    t.rx1.push(gen_bad(&mut r, &cfg, &mut allow_oversize));
-                    t.rx2.push(gen_bad(&mut r, &cfg, &mut allow_oversize));
-                }
-                6 => {
-                    t.rx2.push(gen_bad(&mut r, &cfg, &mut allow_oversize));
-                    if nb {
-                        t.rx2.push(gen_setup_frame(&mut r, cfg.region));
-                    }
-                }
-                _ => {}
-            }
-            if cfg.frontend == Frontend::AsyncC && r.chance(1, 3) {
-                let f = if r.chance(2, 3) { gen_bad(&mut r, &cfg, &mut false) } else { frame_ok(&mut r) };
-                if r.chance(1, 2) {
-                    t.gap1.push(f);
-                } else {
-                    t.gap2.push(f);
-                }
-            }
-            if nb {
-                t.nb_deferred_tx = r.chance(1, 5);
-            }
-            ops.push(Op::Send { port: r.range(1, 223) as u8, len: send_len(&mut r), confirmed: r.chance(1, 4), txn: t });
-        }
-        // a few plain uplinks at the end make lost state visible
-        for _ in 0..2 {
-            ops.push(Op::Send { port: 1, len: 1, confirmed: false, txn: Txn::default() });
-        }
-        MacCase { cfg, ops, knob: 0 }
+        self.own_generate(seed, run, tier, avoid)
     }
     fn execute(&self, case: &MacCase, want_trace: bool) -> Outcome {
         let (w1, mut stats) = run_quiet(case);
@@ -435,5 +363,93 @@ impl Property for C07 {
             "probe.rejected.oversize",
             "probe.rejected-frame-with-state-to-lose",
         ]
+    }
+}
+
+impl C07 {
+    pub fn own_generate(&self, seed: u64, run: u64, _tier: Tier, _avoid: &BTreeSet<String>) -> MacCase {
+        let mut r = Rng::new(run_seed(seed, "C07", run));
+        let cfg = gen_cfg(&mut r, &CfgProfile { frontends: ALL_FRONTENDS, otaa_pct: 35, boundary_counters_pct: 10, join_bias_pct: 20 });
+        let mut cfg = cfg;
+        if cfg.fcnt_up0 > 0xFFFF_0000 {
+            cfg.fcnt_up0 = 7;
+        }
+        let nb = cfg.frontend == Frontend::Nb;
+        let mut allow_oversize = r.chance(1, 3);
+        let mut ops = Vec::new();
+        if cfg.otaa {
+            let mut t = Txn::default();
+            if r.chance(1, 2) {
+                t.rx1.push(gen_bad(&mut r, &cfg, &mut allow_oversize));
+                if nb {
+                    t.rx1.push(FrameSpec::JoinAccept(gen_ja_valid(&mut r, cfg.region)));
+                } else {
+                    t.rx2.push(FrameSpec::JoinAccept(gen_ja_valid(&mut r, cfg.region)));
+                }
+            } else {
+                t.rx1.push(FrameSpec::JoinAccept(gen_ja_valid(&mut r, cfg.region)));
+            }
+            ops.push(Op::Join(t));
+        }
+        let n = r.range(3, 10) as usize;
+        for _ in 0..n {
+            if cfg.frontend == Frontend::AsyncC && !ops.is_empty() && r.chance(1, 6) && ops.iter().any(|o| matches!(o, Op::Send { .. })) {
+                let k = r.range(1, 3);
+                let frames = (0..k).map(|_| if r.chance(2, 3) { gen_bad(&mut r, &cfg, &mut false) } else { frame_ok(&mut r) }).collect();
+                ops.push(Op::Listen { frames, fault: None });
+                continue;
+            }
+            if cfg.otaa && r.chance(1, 10) {
+                let mut t = Txn::default();
+                t.rx1.push(gen_bad(&mut r, &cfg, &mut allow_oversize));
+                if r.chance(1, 2) {
+                    t.rx2.push(FrameSpec::JoinAccept(gen_ja_valid(&mut r, cfg.region)));
+                }
+                ops.push(Op::Join(t));
+                continue;
+            }
+            let mut t = Txn::default();
+            // what happens in the windows of this uplink
+            match r.below(8) {
+                0 | 1 => {
+                    t.rx1.push(gen_setup_frame(&mut r, cfg.region));
+                }
+                2 => t.rx2.push(gen_setup_frame(&mut r, cfg.region)),
+                3 | 4 => {
+                    t.rx1.push(gen_bad(&mut r, &cfg, &mut allow_oversize));
+                    if nb && r.chance(1, 2) {
+                        t.rx1.push(gen_setup_frame(&mut r, cfg.region));
+                    }
+                }
+                5 => {
+                    t.rx1.push(gen_bad(&mut r, &cfg, &mut allow_oversize));
+                    t.rx2.push(gen_bad(&mut r, &cfg, &mut allow_oversize));
+                }
+                6 => {
+                    t.rx2.push(gen_bad(&mut r, &cfg, &mut allow_oversize));
+                    if nb {
+                        t.rx2.push(gen_setup_frame(&mut r, cfg.region));
+                    }
+                }
+                _ => {}
+            }
+            if cfg.frontend == Frontend::AsyncC && r.chance(1, 3) {
+                let f = if r.chance(2, 3) { gen_bad(&mut r, &cfg, &mut false) } else { frame_ok(&mut r) };
+                if r.chance(1, 2) {
+                    t.gap1.push(f);
+                } else {
+                    t.gap2.push(f);
+                }
+            }
+            if nb {
+                t.nb_deferred_tx = r.chance(1, 5);
+            }
+            ops.push(Op::Send { port: r.range(1, 223) as u8, len: send_len(&mut r), confirmed: r.chance(1, 4), txn: t });
+        }
+        // a few plain uplinks at the end make lost state visible
+        for _ in 0..2 {
+            ops.push(Op::Send { port: 1, len: 1, confirmed: false, txn: Txn::default() });
+        }
+        MacCase { cfg, ops, knob: 0 }
     }
 }
